@@ -736,3 +736,7 @@ def run(ctx):
     rule_i(ctx)
     rule_i_defragment(ctx)
     ctx.info('h', 'STREAM frame bytes/ranges provenance is rule C05.f (shared)')
+    # obligations shared with a sibling property (evaluated by the owning module, reported here under letter x)
+    from engine.rulelib import share as _share
+    _share(ctx, 'C02', 'rule_j', 'x', '0-RTT stream data is re-queued after a Retry: the queue test is sampled before the rewind (bytes sent in 0-RTT are otherwise never delivered)')
+
